@@ -34,6 +34,7 @@ type half struct {
 	waiting    bool // reader is blocked in Read with an empty buffer
 	readerDone bool // the goroutine that owns the reading end has returned
 	frames     int
+	copyWrites bool // see newMemPipeCopy
 	// hold: the next Read that empties the buffer does not return until released (models a
 	// reader goroutine that is descheduled right after its read completed)
 	holdArmed   bool
@@ -51,6 +52,9 @@ func (h *half) write(b []byte) (int, error) {
 	}
 	// no copy: every writer (sendLengthPrefixed, the harness' raw frames) hands over a buffer it
 	// never touches again; one copy less of every 1 MB packet
+	if h.copyWrites {
+		b = append([]byte(nil), b...)
+	}
 	h.chunks = append(h.chunks, b)
 	h.frames++
 	h.cond.Broadcast()
@@ -135,6 +139,17 @@ func (a memAddr) String() string  { return string(a) }
 type memConn struct {
 	rd, wr        *half
 	local, remote memAddr
+}
+
+// newMemPipeCopy: a pipe whose Write copies what it is handed. The real EncryptedConn seals every frame into a pooled
+// buffer that it reuses for the next frame, so the no-copy pipe above corrupts a multi-frame stream whose reader lags
+// (the scenarios that go through P2P.AddPeer used it until the fourth session: the first session of the
+// session-replacement case died of a decryption failure before the second one arrived, and the replacement branch of
+// AddPeer was never reached - a harness defect that made that case vacuous).
+func newMemPipeCopy(a, b string) (*memConn, *memConn) {
+	x, y := newMemPipe(a, b)
+	x.wr.copyWrites, y.wr.copyWrites = true, true
+	return x, y
 }
 
 func newMemPipe(a, b string) (*memConn, *memConn) {
